@@ -67,6 +67,44 @@ Definition c_judge (c : cache) (n : name) (cbp mbf : bool) (r : option (name * N
     else match c_lookup (c_list c) n with Some e => if c_fresh c mbf e then 5%N else 0%N | None => 0%N end
   end.
 
+(* the cache-level meaning of one operation of a history (r = what the step answered: an Interest touches the cache
+   only when it was answered from it by an exact-name lookup) *)
+Definition cache_step (c : cache) (ad : bool) (o : op) (r : res) : cache :=
+  match o with
+  | OAdv d => c_adv c d
+  | OCap k => c_setcap c k
+  | OIns n w f => c_insert c n w f
+  | OFind n cbp mbf => if cbp then c else fst (c_exact c n mbf)
+  | OInterest _ n cbp mbf _ _ _ =>
+      match r with RInt 3%N _ => if cbp then c else fst (c_exact c n mbf) | _ => c end
+  | OData n w f _ => if ad then c_insert c n w f else c
+  | OTick => c
+  | ODnl => c
+  end.
+
+(* a history seen from the cache: each element is (csAdmit flag, operation, what the step answered) *)
+Definition tstep : Type := (bool * op * res)%type.
+Definition cache_run (c : cache) (tr : list tstep) : cache :=
+  fold_left (fun c x => cache_step c (fst (fst x)) (snd (fst x)) (snd x)) tr c.
+
+(* the packet most recently inserted under name n in a history that starts at time t0: its wire and the time at
+   which it turns stale (insertion time + FreshnessPeriod; insertion time itself when there is none) *)
+Definition inserted (x : tstep) (n : name) : option (N * option N) :=
+  match snd (fst x) with
+  | OIns m w f => if name_eqb m n then Some (w, f) else None
+  | OData m w f _ => if fst (fst x) && name_eqb m n then Some (w, f) else None
+  | _ => None
+  end.
+Definition adv_of (x : tstep) : Z := match snd (fst x) with OAdv d => Z.of_N d | _ => 0 end.
+Definition clock (t0 : Z) (tr : list tstep) : Z := fold_left (fun c x => c + adv_of x) tr t0.
+Definition latest_step (n : name) (a : Z * option (N * Z)) (x : tstep) : Z * option (N * Z) :=
+  (fst a + adv_of x,
+   match inserted x n with
+   | Some (w, f) => Some (w, fst a + match f with Some d => Z.of_N d | None => 0 end)
+   | None => snd a
+   end).
+Definition latest (t0 : Z) (tr : list tstep) (n : name) : option (N * Z) := snd (fold_left (latest_step n) tr (t0, None)).
+
 (* content comparison used after every operation: the implementation caches exactly the entries of the spec
    (which is how "evicts the least recently used" and "at most capacity" are observed) *)
 Definition csent_eqb (a b : csent) : bool :=
